@@ -247,11 +247,13 @@ def main():
     except Fail as e:
         print("gen_consts: BROKEN TIE: %s" % e)
         sys.exit(2)
+    fn_problem = None
     try:
         nfn = check_fn_map()
     except Fail as e:
-        print("gen_consts: BROKEN TIE: %s" % e)
-        sys.exit(2)
+        # the generated files are still written: the rest of the check can go on and look for a failing input
+        fn_problem = str(e)
+        nfn = 0
     shape_out = os.path.join(os.path.dirname(out), "Shape.v")
     if not os.path.exists(shape_out) or open(shape_out).read() != shape:
         with open(shape_out, "w") as f:
@@ -263,6 +265,9 @@ def main():
             f.write(text)
     if len(sys.argv) > 2:
         json.dump(vals, open(sys.argv[2], "w"), indent=0, sort_keys=True)
+    if fn_problem:
+        print("gen_consts: BROKEN TIE (function map): %s" % fn_problem)
+        sys.exit(3)
     print("gen_consts: %d constants%s, %d functions classified" % (len(vals), "" if old == text else " (changed)", nfn))
 
 
